@@ -44,7 +44,7 @@ Tie: translator (T) + correspondence (C).
   `Params.stepP` / `Params.dumpDoc`; oracle: every dumped file read into a fresh object gives every parameter its CURRENT value.
 * the NAME of the file as an input (round 5): ~45 fixed + generated parameter-file names (several dots, device-like names, case, spaces, unicode, leading dot /
   dash, long names, characters some systems refuse, sub-directory): whatever name dump_file accepted must read back (also through BIOGEME(parameters=name)),
-  is_valid_filename compared with `Params.validFileName`, the reader's values with `Params.readNamed` (known finding FC14-7: names with <>:"\|?*);
+  is_valid_filename compared with `Params.validFileName`, the reader's values with `Params.readNamed` (finding FC14-7, repaired in /repo by dc35f10: names with one of the characters < > : " backslash | ? *);
   model names of that kind for pickle / report files.  Report completeness at LARGE sizes: results with 15, 16, 40 (thorough: up to 64) parameters through
   every report, both option variants, before and after save / load.
 """
@@ -100,7 +100,7 @@ MANIFEST = dict(
     '(format); "admissible" = accepted by the checks and of the declared kind (a Python bool stored in an int/float parameter is accepted by set_value but '
     'not read back: C14.param_roundtrip_needs_type). The numerical content of the statistics is abstract in ResObj (a function of the raw attributes; their values are compared '
     'bit for bit between saved and loaded objects by the harness); results built by hand without gradient / initial log likelihood cannot produce the LaTeX report and the '
-    'general-statistics text (modelled: latex_outcome; estimate() never produces such objects). FC14-6 (read_file failed when a user-added parameter is called optimization_algorithm) is fixed in /repo. Known finding FC14-7: dump_file writes under names (containing <>:"\\|?*) for which read_file only warns and keeps its own values (C14.refused_name_keeps_reader_values; repaired behaviour: named_roundtrip_repaired); for every name read_file accepts the round trip is proved (named_roundtrip). Defects found by this check and repaired in /repo (see KNOWN_FINDINGS.json): recycle picked the lexicographically last pickle (FC14-1), generate_flat_panel_dataframe(save_on_file=True) overwrote (FC14-2), LaTeX cells in exponent notation got ".0" appended (FC14-3), files_of_type read the model name as a glob pattern (FC14-5); still listed as known finding: reports of quick_estimate results raise (FC14-4).',
+    'general-statistics text (modelled: latex_outcome; estimate() never produces such objects). FC14-6 (read_file failed when a user-added parameter is called optimization_algorithm) is fixed in /repo. FC14-7 (dump_file wrote under names, containing one of < > : " backslash | ? *, for which read_file only warns and keeps its own values: witness C14.refused_name_keeps_reader_values; repaired behaviour C14.named_roundtrip_repaired) is fixed in /repo by dc35f10; for every name read_file accepts the round trip is proved (named_roundtrip). Defects found by this check and repaired in /repo (see KNOWN_FINDINGS.json): recycle picked the lexicographically last pickle (FC14-1), generate_flat_panel_dataframe(save_on_file=True) overwrote (FC14-2), LaTeX cells in exponent notation got ".0" appended (FC14-3), files_of_type read the model name as a glob pattern (FC14-5); still listed as known finding: reports of quick_estimate results raise (FC14-4).',
 )
 
 TRUSTED = [
